@@ -9,7 +9,7 @@
    a declared supertype (t_super (d_ty d)) and own features (t_own (d_ty d)).  below ts a d: a is d or an ancestor of d.
    has_feat ts x f: the type named x owns or inherits a feature that Feature.__eq__ identifies with f (name, range,
    element type with None = TOP, description; NOT the multipleReferencesAllowed flag: the property excludes it). *)
-From Cassis Require Import Base TS TSProofs Merge MergeProofs.
+From Cassis Require Import Base TS TSProofs Merge MergeProofs MergeProofs2 MergeProofs3.
 
 (* ---- the result is a consistent type system: it satisfies the invariant WF = WFh /\ WFf of C10 / C11.  WFh: one tree
         rooted at TOP, children = inverse of supertype, every feature reference registered, own features carry their type
@@ -140,37 +140,97 @@ Print Assumptions C13_merge_origin.
         elementType references of all their Feature objects, before and after) is carried by the correspondence harness
         on every case (field c_pure) and by the oracle. ---- *)
 
-(* ---- NOT PROVED (kept as the goals; explored by the correspondence, which checks wfb - hierarchy AND features - of the
-        model's result on every case, and by the oracle on the implementation):
+(* ================================================================================================ the merge as a function of the declarations
+   Vocabulary (MergeProofs.v / MergeProofs2.v / MergeProofs3.v).  L = type_list inputs.
+   declared_edge L x s: TypeSystem() or some input declares x directly below s;  dreach L a d: a is d or above d in the
+   union of all declared edges.  declared_feat L A f: TypeSystem() or some input declares feature f on the type named A.
+   AG L (agreement): two declarations of one feature name on types A1, A2 with dreach L A1 A2 are equal for
+   Feature.__eq__ (name, range, element type with None = TOP, description).
+   mergeable_h L: any two supertypes declared for one type are comparable in dreach; no type is above (or equal to) a
+   supertype declared for it; every declared supertype is predefined or (inductively) declared below such a type.
+   side_cond L (the property's side condition): whenever a type has two different declared supertypes, these and every
+   type above them in dreach have one declared supertype only.  Boolean twin: side_condb (sound).
+   same_static L L': the same declared edges and the same declared features (a permutation of the inputs, a duplicated
+   input, an added TypeSystem()).  nofinal L / all_nofinal inputs: no declared supertype is inheritance-final (true of
+   every input built through create_type: C10_reachable_no_final_parent). ---- *)
 
-   C13_merge_agreeing_features_ok:
-     if all declarations of every feature name agree (with each other and with the built-in features), no feature step of
-     the merge raises: merge inputs = Err e  ->  the merge of the same inputs with all features erased raises as well.
-     (Needs a lock-step simulation of the two runs; the checks that can raise are exactly the three feat_eqb tests of
-     _add_feature and the one of create_type's inheritance loop.)
-   C13_merge_idempotent:      WF t -> exists r, merge [t; t] = Ok r /\ ts_equiv r t = true
-   C13_merge_empty_neutral:   WF t -> exists r, merge [t; init_ts] = Ok r /\ ts_equiv r t = true
-     (both need the "replay" theorem: merging the declarations of one well-formed type system into TypeSystem() raises
-      nowhere and reproduces it.  By C13_merge_order_independent_partial the three merges [t], [t; t] and [t; init_ts]
-      are equivalent to each other whenever they succeed and t carries the default DocumentAnnotation.)
-   C13_merge_order_independent (FULL statement, with the property's side condition):
-     forall inputs inputs', Permutation inputs inputs' ->
-       (forall d1 d2, In d1 (type_list inputs) -> In d2 (type_list inputs) -> dname d1 = dname d2 ->
-          t_super (d_ty d1) <> t_super (d_ty d2) ->
-          forall s, (t_super (d_ty d1) = Some s \/ t_super (d_ty d2) = Some s) ->
-          forall a e1 e2, dreach (type_list inputs) a s -> In e1 (type_list inputs) -> In e2 (type_list inputs) ->
-             dname e1 = a -> dname e2 = a -> t_super (d_ty e1) = t_super (d_ty e2)) ->
-       match merge inputs, merge inputs' with
-       | Ok a, Ok b => ts_equiv a b = true | Err _, Err _ => True | _, _ => False end
-     and the same for regroupings merge [merge [a; b]; c] / merge [a; b; c].
-   What is proved of it: (1) C13_merge_order_independent_partial / C13_merge_permutation_partial above: without
-   competing supertypes and when both merges succeed, the results are equivalent.  (2) With competing supertypes, the
-   supertype half: by C13_merge_supertype_most_specific and C13_merge_contains_all_types the types of the result and
-   the supertype of each are determined by the SET of declarations whenever both orders succeed (the most specific
-   declared supertype is unique in a tree), and by C13_merge_conflict_raises_* the failures that the declarations force
-   do not depend on the order.  Missing: that success itself does not depend on the order under the side condition
-   (an order can fail on a comparison that another order postpones until the hierarchy has deepened - exactly what the
-   side condition is there to exclude), and regrouping. ---- *)
+(* ---- the hierarchy of a successful merge is exactly the reachability relation of the declared edges ---- *)
+Theorem C13_merge_below_iff_dreach : forall inputs ts, all_WFh inputs -> merge inputs = Ok ts ->
+  forall a d, below ts a d <-> dreach (type_list inputs) a d.
+Proof. exact merge_below_iff_dreach. Qed.
+Print Assumptions C13_merge_below_iff_dreach.
+
+(* ---- necessity: what merges is mergeable and agrees (so everything else raises ValueError, by C13_merge_terminates and
+        C13_merge_error_is_value) ---- *)
+Theorem C13_merge_ok_mergeable : forall inputs ts, all_WFh inputs -> merge inputs = Ok ts -> mergeable_h (type_list inputs).
+Proof. exact merge_mergeable_h. Qed.
+Print Assumptions C13_merge_ok_mergeable.
+Theorem C13_merge_ok_agree : forall inputs ts, all_WFh inputs -> merge inputs = Ok ts -> AG (type_list inputs).
+Proof. exact merge_AG. Qed.
+Print Assumptions C13_merge_ok_agree.
+
+(* ---- merge_agreeing_features_ok: when all declarations of each feature name along the declared supertype edges agree,
+        the features add no failure: if the merge of the same inputs with all features erased succeeds (i.e. the declared
+        supertypes are comparable, in the order given), the merge succeeds, with the same hierarchy.  No side condition. ---- *)
+Theorem C13_merge_agreeing_features_ok : forall inputs sk, all_WFh inputs -> AG (type_list inputs) ->
+  merge (map erase_feats inputs) = Ok sk -> exists ts, merge inputs = Ok ts /\ strip ts = strip sk.
+Proof. exact merge_agreeing_features_ok. Qed.
+Print Assumptions C13_merge_agreeing_features_ok.
+
+(* ---- sufficiency: under the side condition, mergeable and agreeing declarations merge; so success is a property of the
+        SET of declarations ---- *)
+Theorem C13_merge_succeeds : forall inputs, all_WFh inputs -> nofinal (type_list inputs) -> side_cond (type_list inputs) ->
+  mergeable_h (type_list inputs) -> AG (type_list inputs) -> exists ts, merge inputs = Ok ts.
+Proof. exact merge_succeeds. Qed.
+Print Assumptions C13_merge_succeeds.
+Theorem C13_merge_success_iff : forall inputs, all_WFh inputs -> nofinal (type_list inputs) -> side_cond (type_list inputs) ->
+  ((exists ts, merge inputs = Ok ts) <-> mergeable_h (type_list inputs) /\ AG (type_list inputs)).
+Proof. exact merge_success_iff. Qed.
+Print Assumptions C13_merge_success_iff.
+
+(* ---- ORDER INDEPENDENCE.  (1) Without any side condition: two tuples with the same declarations whose merges both
+        succeed give the same types, supertypes and effective features.  (2) Under the side condition: success / failure
+        (ValueError) and the result do not depend on the order of the inputs (same_outcome: Ok/Ok with ts_equiv, or
+        Err EValue / Err EValue).  RefutedC13.order_independence_without_side_condition_refuted shows that (2) needs it. ---- *)
+Theorem C13_merge_results_equiv : forall inputs inputs' a b, all_WFh inputs -> all_WFh inputs' ->
+  same_static (type_list inputs) (type_list inputs') -> merge inputs = Ok a -> merge inputs' = Ok b -> ts_equiv a b = true.
+Proof. exact merge_results_equiv. Qed.
+Print Assumptions C13_merge_results_equiv.
+Theorem C13_merge_order_independent : forall inputs inputs', all_WFh inputs -> all_WFh inputs' -> nofinal (type_list inputs) ->
+  same_static (type_list inputs) (type_list inputs') -> side_cond (type_list inputs) -> same_outcome (merge inputs) (merge inputs').
+Proof. exact merge_order_independent. Qed.
+Print Assumptions C13_merge_order_independent.
+Theorem C13_merge_permutation : forall inputs inputs', all_WFh inputs -> all_nofinal inputs -> Permutation inputs inputs' ->
+  side_cond (type_list inputs) -> same_outcome (merge inputs) (merge inputs').
+Proof. exact merge_permutation. Qed.
+Print Assumptions C13_merge_permutation.
+Theorem C13_side_cond_reflect : forall L, side_condb L = true -> side_cond L.
+Proof. exact side_condb_sound. Qed.
+Print Assumptions C13_side_cond_reflect.
+
+(* ---- REPLAY.  A well-formed type system t that contains TypeSystem() (init_embedded: every built-in type,
+        DocumentAnnotation included, with its supertype and - up to __eq__ - its features; the predefined types of t
+        declare nothing else; boolean twin init_embeddedb) and has no inheritance-final supertype is reproduced by the merge:
+        it raises nowhere and the result has the same types, supertypes and effective features (ts_equiv), the same
+        children as sets (same_tree), and every own feature of the result is an own feature of that type in t (or in
+        TypeSystem()).  The same for [t; t] (idempotence) and [t; TypeSystem()] (neutrality of the empty type system).
+        RefutedC13: replay_without_document_annotation_refuted (the premise is needed),
+        replay_own_features_exact_refuted (own features are reproduced as a subset only). ---- *)
+Theorem C13_merge_replay : forall t, WF t -> init_embedded t -> no_final_parent t -> replays t [t].
+Proof. exact merge_replay. Qed.
+Print Assumptions C13_merge_replay.
+Theorem C13_merge_idempotent : forall t, WF t -> init_embedded t -> no_final_parent t -> replays t [t; t].
+Proof. exact merge_idempotent. Qed.
+Print Assumptions C13_merge_idempotent.
+Theorem C13_merge_empty_neutral : forall t, WF t -> init_embedded t -> no_final_parent t -> replays t [t; init_ts].
+Proof. exact merge_empty_neutral. Qed.
+Print Assumptions C13_merge_empty_neutral.
+Theorem C13_merge_nothing : merge [] = Ok init_ts.
+Proof. exact merge_nil. Qed.
+Print Assumptions C13_merge_nothing.
+Theorem C13_init_embedded_reflect : forall t, init_embeddedb t = true -> init_embedded t.
+Proof. exact init_embeddedb_sound. Qed.
+Print Assumptions C13_init_embedded_reflect.
 
 (* ================================================================================================ non-vacuity *)
 Definition ex_a : tsys := final_ts [CT "a.A" ANNOTATION; CT "a.B" "a.A"; CT "a.X" "a.A"; CF "a.B" "f" "uima.cas.String" None] init_ts.
@@ -186,3 +246,18 @@ Example C13_conflict_nonvacuous :
   merge [final_ts [CT "a.A" ANNOTATION; CT "a.B" ANNOTATION; CT "a.X" "a.A"] init_ts;
          final_ts [CT "a.A" ANNOTATION; CT "a.B" ANNOTATION; CT "a.X" "a.B"] init_ts] = Err EValue.
 Proof. vm_compute. reflexivity. Qed.
+
+(* the side condition holds of inputs with competing supertypes (a.X below a.A and below a.B), the declarations agree,
+   the hierarchy-only merge succeeds *)
+Example C13_side_cond_nonvacuous :
+  side_cond (type_list [ex_a; ex_b]) /\ no_competingb (type_list [ex_a; ex_b]) = false /\ AG (type_list [ex_a; ex_b]) /\
+  nofinal (type_list [ex_a; ex_b]) /\ exists sk, merge (map erase_feats [ex_a; ex_b]) = Ok sk.
+Proof.
+  assert (HW : all_WFh [ex_a; ex_b]) by (intros ts [<-|[<-|[]]]; apply wfhb_sound; vm_compute; reflexivity).
+  split; [apply side_condb_sound; vm_compute; reflexivity|]. split; [vm_compute; reflexivity|]. split.
+  - assert (H : exists ts, merge [ex_a; ex_b] = Ok ts) by (eexists; vm_compute; reflexivity). destruct H as (ts & H). apply (merge_AG _ _ HW H).
+  - split; [|eexists; vm_compute; reflexivity]. apply type_list_nofinal. intros ts [<-|[<-|[]]]; apply no_final_parentb_sound; vm_compute; reflexivity.
+Qed.
+(* the premises of the replay theorem hold of a type system with a feature *)
+Example C13_replay_nonvacuous : wfb ex_a = true /\ init_embeddedb ex_a = true /\ no_final_parentb ex_a = true.
+Proof. vm_compute. repeat split. Qed.
